@@ -42,6 +42,10 @@ type Options struct {
 	// OnParse, when set (network kinds only), makes the session use modbus.NewClient with a ParseResponseFunc that
 	// reports its input before delegating to the library parser of the framing.
 	OnParse func(data []byte)
+	// Ctor selects how the network client is configured: 0 plain New{TCP,RTU}ClientWithConfig; 1 with ParseResponseFunc set
+	// to the library parser of that framing; 2 with AsProtocolErrorFunc set to the library recogniser of that framing; 3 both.
+	// (The framing-specific constructors must behave the same for all of them.)
+	Ctor int
 }
 
 // Outcome of one call.
@@ -96,8 +100,20 @@ func NewSession(kind int, o Options) *Session {
 			}
 			c = modbus.NewClient(cfg)
 		case kind == TCP:
+			if o.Ctor&1 != 0 {
+				cfg.ParseResponseFunc = packet.ParseTCPResponse
+			}
+			if o.Ctor&2 != 0 {
+				cfg.AsProtocolErrorFunc = packet.AsTCPErrorPacket
+			}
 			c = modbus.NewTCPClientWithConfig(cfg)
 		default:
+			if o.Ctor&1 != 0 {
+				cfg.ParseResponseFunc = packet.ParseRTUResponseWithCRC
+			}
+			if o.Ctor&2 != 0 {
+				cfg.AsProtocolErrorFunc = packet.AsRTUErrorPacket
+			}
 			c = modbus.NewRTUClientWithConfig(cfg)
 		}
 		_ = c.Connect(context.Background(), "verif:1")
